@@ -50,7 +50,7 @@ func main() {
 	w("b", 1, 10)
 	w("c", 1, 100)
 	h.flush(base) // memdb closed -> Cleanup: a,b,c marked expired(now)
-	w("b", 2, 20)  // b, c keep writing -> un-expired
+	w("b", 2, 20) // b, c keep writing -> un-expired
 	w("c", 2, 200)
 	// ... 3 hours later the next memory database flush of the shard runs Cleanup -> GC(now-3h)
 	idx, ok := h.shard.MemIndexDB().GetTimeSeriesIndex(nameHash("req"))
